@@ -3,7 +3,7 @@
 export GOFLAGS=-mod=mod GOPROXY=off GOSUMDB=off GOTOOLCHAIN=local
 S=/tmp/vdev
 mkdir -p $S
-rsync -a --delete --exclude .git --exclude sim.test --exclude sim.race.test /repo/ $S/ >/dev/null
+rsync -a --delete --exclude .git --exclude sim.test --exclude sim.race.test ${VERIF_REPO:-/repo}/ $S/ >/dev/null
 rsync -a --delete /verif/verifsim $S/
 cd $S && go1.26.8 run ./verifsim/cmd/rewriteimports store/fscache >/dev/null || exit 2
 go1.26.8 run ./verifsim/cmd/instrumentgo . >/dev/null || exit 2
